@@ -106,3 +106,7 @@ PROPS["C07"]["assumptions"] = PROPS["C07"]["assumptions"] + ["connector round tr
 PROPS["C07"]["explanation"] += "; connector events through the real wrap/unwrap functions: every field compared, event ID = int64(fnv64(ID))"
 PROPS["C10"]["families"] = ["shard", "launch", "connrt"]
 PROPS["C10"]["explanation"] += "; connector event IDs: int64(fnv64(ID)) of the real conversion (also several events through one hasher, as a connector consumer process does) vs the Coq model of FNV-1"
+
+PROPS["C10"]["families"] = ["shard", "launch", "connrt", "engine"]
+PROPS["C10"]["assumptions"] = PROPS["C10"]["assumptions"] + ENGINE_ASSUME
+PROPS["C10"]["explanation"] += "; connector consumers in the engine harness (1..3 shards, default count, two instances) under faults, crashes and rewinds: every connector event handled by exactly its own shard"
